@@ -886,6 +886,7 @@ struct Gen {
   bool saved[kMaxStore];
   int savedZone[kMaxStore]; Kind savedKind[kMaxStore];
   int64_t lastE = 0; int lastY = 2020;
+  std::vector<std::pair<int, std::string> > recent;   // a few earlier queries of this run (client, query text)
   explicit Gen(uint64_t seed) : rng(seed) {
     for (int i = 0; i < kMaxProcs; i++) haveB[i] = haveX[i] = false;
     for (int i = 0; i < kMaxClients; i++) { ckind[i] = K_EMPTY; czone[i] = -1; }
@@ -1081,13 +1082,21 @@ struct Gen {
     int wTot = mix.wQuery + mix.wRepeat + mix.wSetup + mix.wSave + mix.wRestore + mix.wReboot + mix.wManset + mix.wClock;
     for (int i = 0; i < n; i++) {
       int w = (int)rng.below(wTot);
-      if (w < mix.wQuery) {
+      if (w < mix.wQuery && !recent.empty() && rng.chance(1, 7)) {
+        // ask an EARLIER query of this run again (identical argument), after whatever happened in between:
+        // a memo keyed on the argument, or state that survives a refill by another entry point, only
+        // shows when the very same question comes back
+        const std::pair<int, std::string>& old = recent[rng.below(recent.size())];
+        line(fmt("Q %d %s", rng.chance(2, 3) ? old.first : liveClient(), old.second.c_str()));
+      } else if (w < mix.wQuery) {
         bool oor = false;
         std::string q;
         for (int tries = 0; tries < 8; tries++) { q = drawQuery(oor); if (!(faultFree && oor)) break; }
         if (faultFree && oor) continue;
         int c = liveClient();
         line(fmt("Q %d %s", c, q.c_str()));
+        if (recent.size() < 8) recent.push_back(std::make_pair(c, q));
+        else recent[rng.below(8)] = std::make_pair(c, q);
         if (oor) {
           // failing queries are repeated back to back and interleaved with valid ones on the same processor
           int reps = (int)rng.range(0, 3);
